@@ -979,6 +979,21 @@ func TestC10Regress(t *testing.T) {
 			t.Errorf("D23: %s", msg)
 		}
 	}
+	// "no waiter remains queued" has to be observable: WantConnectionCount on a client that has never queued one
+	func() {
+		defer func() {
+			if r := recover(); r != nil {
+				msg := fmt.Sprintf("HostClient.WantConnectionCount() on a client that has never queued a waiter panics: %v", r)
+				ev.Fail(prop, "regress", map[string]string{"case": "want-connection-count"}, msg)
+				t.Errorf("%s", msg)
+			}
+		}()
+		rec.Case(true, ev.HashString("want-connection-count"), "regress-want-connection-count")
+		hc := http1.NewHostClient(&http1.ClientOptions{MaxConns: 1}).(*http1.HostClient)
+		if n := hc.WantConnectionCount(); n != 0 {
+			t.Errorf("WantConnectionCount() = %d on a new client", n)
+		}
+	}()
 	// The close option on the REQUEST side, in every spelling a list field allows: the peer does what it was asked to
 	// (answers without repeating the option, then closes); the connection must not go back to the pool, the next
 	// call, a POST that is never repeated, gets a connection of its own.
